@@ -1,12 +1,11 @@
 #!/bin/sh
-# usage: tools/try_patch.sh <patch.diff> <prop> [<prop> ...]   -- run checks against a scratch copy of /repo with the patch applied
-set -e
+# usage: tools/try_patch.sh <patch.diff> <prop> [<prop> ...]
+# applies the change to /repo (never committed), runs the checks against /repo, and undoes it straight afterwards
 P=$1; shift
-S=/tmp/mrepo_$$
-rm -rf $S; mkdir -p $S
-rsync -a --exclude target --exclude .git /repo/ $S/
-(cd $S && patch -p1 -s < $P)
+git -C /repo diff --quiet || { echo "/repo has uncommitted changes"; exit 2; }
+git -C /repo apply "$P" || { echo "patch does not apply"; exit 2; }
 for prop in "$@"; do
-  VERIF_REPO=$S /verif/check $prop --no-probe || true
+  /verif/check $prop --no-probe ${TRY_FLAGS:-}
 done
-rm -rf $S
+git -C /repo checkout -- .
+git -C /repo status --short | grep -v '^??' | head -3
